@@ -523,7 +523,7 @@ let parse_hop (tok : string) : hop =
   | 'Q' -> HIterDrop (name_id body)
   | 'A' -> HScan
   | 'O' | 'N' -> HReopen
-  | 'C' | 'W' | 'X' | 'L' | 'T' | 'Z' | 'Y' | 'E' | 'V' -> HOther
+  | 'C' | 'W' | 'X' | 'L' | 'T' | 'Z' | 'Y' | 'E' | 'V' | 'M' -> HOther
   | _ -> failwith ("bad hop " ^ tok)
 
 let show_pairs (m : (n list * n list) list) : string =
